@@ -123,6 +123,14 @@ func main() {
 		stateSurvey(prog)
 		return
 	}
+	if os.Getenv("AKITA_PROGRESS_SURVEY") != "" {
+		n, fs := progressHonestFindings(prog.SrcFuncs(libComponentPkg))
+		fmt.Println("functions with hand-offs and a bool result:", n)
+		for _, f := range fs {
+			fmt.Println(prog.Rel(f.ret.Pos()), SSAFuncKey(f.fn), "hand-off at", prog.Rel(f.op.Pos()))
+		}
+		return
+	}
 	if os.Getenv("AKITA_GUARD_SURVEY") != "" {
 		guardSurvey(prog)
 		return
